@@ -302,7 +302,7 @@ Theorem range_expand_shape o args size c kk :
   convert_to_range o args size = CYes c kk ->
   exists n, kk = Z.of_nat n /\ (5 <= n)%nat /\ expand c = Some (firstn n args) /\
     ((exists y, c = [VRep (Z.of_nat n) 0; hd VN args; VSpc y]) /\ firstn n args = repeat (hd VN args) n \/
-     (exists k d x y, c = [VRep (Z.of_nat n) 1; mk k d; mk k x; VSpc y])).
+     (exists k d x y, c = [VRep (Z.of_nat n) 1; mk k d; mk k x; VSpc y] /\ inr k d /\ hd VN args = mk k x)).
 Proof.
   intros Hsc Hin Hex Hlen Hc. unfold convert_to_range in Hc.
   destruct ((size <? 5) || (hd_type args =? 45) || negb (compress o)); [discriminate|].
@@ -372,7 +372,7 @@ Proof.
     rewrite Ea. change (Z.to_nat 1) with 1%nat. cbn [firstn app]. rewrite <- Ea.
     rewrite expand_delta by lia. rewrite Nat2Z.id.
     split; [f_equal; symmetry; apply firstn_map_seq; intros j Hj; apply Hcl; lia|].
-    right. eexists _, _, _, _. reflexivity.
+    right. eexists _, _, _, _. split; [reflexivity|]. split; [apply wr_inr|now rewrite Ea].
 Qed.
 
 Theorem range_expand o args size c kk :
